@@ -1,8 +1,8 @@
 """Classes for the directed probes of harness/drive_typeprobe.py: how a class gets its type identifier and its
 parameter declarations (outside the Coq model, which takes type identifiers and argument tables as data)."""
-from typing import Dict, Optional, Union
+from typing import Dict, List, Optional, Union
 
-from experimaestro import Config, Param, Meta
+from experimaestro import Config, Param, Meta, setmeta
 
 
 class NamedBase(Config):
@@ -68,3 +68,13 @@ class HolderB(Config):
 # ---- a dictionary whose values are ints OR dictionaries (two levels at most)
 class UD(Config):
     d: Param[Dict[str, Union[int, Dict[str, int]]]]
+
+
+# ---- a list default holding a meta-flagged configuration
+class MLeaf(Config):
+    x: Param[int] = 0
+
+
+class MHolder(Config):
+    l: Param[List[MLeaf]] = [setmeta(MLeaf(x=1), True)]
+    y: Param[int] = 0
